@@ -2,12 +2,12 @@ SPECIFICATION MCSpec
 CONSTANTS
    MaxLogs = 2
    DestNames <- Dests_ab
-   MaxSet = 3
-   LvlFirst = {3}
-   ClsFirst <- Cls_26
-   LvlLast = {4}
+   MaxSet = 2
+   LvlFirst = {2, 5}
+   ClsFirst <- Cls_26_1
+   LvlLast = {1, 4}
    FullLast = FALSE
-   ClsLast <- Cls_6_none
+   ClsLast <- Cls_6_none_34
    SetWhenFull = TRUE
    TopoAfterSet = FALSE
    RemoveAny = TRUE
